@@ -237,12 +237,15 @@ impl<'a> LspServer<'a> {
             match Self::cast_notification::<notification::DidChangeTextDocument>(notification) {
                 Ok(params) => {
                     trace!("DidChangeTextDocument {}", params.text_document.uri);
-                    let contents = params.content_changes.into_iter().next().unwrap().text;
                     let uri = params.text_document.uri;
                     let version = params.text_document.version;
 
-                    self.project
-                        .change_text_document(&uri, contents.as_str().to_string());
+                    // With full document synchronization each change carries the whole
+                    // text, so the last change is the current content. A notification
+                    // without changes leaves the content as it is.
+                    if let Some(change) = params.content_changes.into_iter().last() {
+                        self.project.change_text_document(&uri, change.text);
+                    }
                     let diagnostics = self.project.semantic(&uri);
 
                     self.send_notification::<PublishDiagnostics>(PublishDiagnosticsParams {
